@@ -38,6 +38,9 @@ func main() {
 		}
 		fmt.Fprintf(os.Stderr, "loaded in %.1fs\n", time.Since(t0).Seconds())
 		ex := eng.NewExplorer(p, os.Args[2])
+		if w := os.Getenv("GOSYM_MAXVIOL"); w != "" {
+			fmt.Sscan(w, &ex.MaxViolations)
+		}
 		if w := os.Getenv("GOSYM_WORKERS"); w != "" {
 			fmt.Sscan(w, &ex.Workers)
 		}
